@@ -59,8 +59,13 @@ def one_run(pid, d, tag, seed, tier, phases, skip, tr, budget, stats, race=False
             continue
         if focus and not (out / ph / "history.txt").exists() and not (out / ph / "result.txt").exists():
             continue
+        if status[ph] == "SLOW":
+            # still progressing when the cap was reached: inconclusive, never a violation
+            stats["slow_phases"].append(ph)
+            continue
         if status[ph] != "OK":
             v = conclib.hang_report(ph, out / ph)
+            v["verdict"] = status[ph]
             panics = re.findall(r"panic in (.*)", log)
             if panics:
                 v["panics_before_hang"] = panics[:5]
@@ -78,6 +83,30 @@ def one_run(pid, d, tag, seed, tier, phases, skip, tr, budget, stats, race=False
     for v in viol:
         v.update(seed=seed, tier=tier, race=race, tcp=tcp, phases=phases)
     return viol
+
+
+def confirm_timing(pid, d, tag, seed, tier, skip, tr, budget, stats, kw, viol):
+    """A did-not-finish verdict rests on timing: it is reported only if it reproduces -- the phase is
+    run twice more and must fail to finish in at least 2 of the 3 runs.  Other kinds are kept as is."""
+    timing = [v for v in viol if v.get("kind") == "did-not-finish"]
+    if not timing or len(timing) != len(viol):
+        return viol
+    ph = timing[0]["phase"]
+    hits = 1
+    for i in (1, 2):
+        again = one_run(pid, d, "%s.again%d" % (tag, i), seed, tier, [ph], skip, tr, budget, stats, **kw)
+        others = [v for v in again if v.get("kind") != "did-not-finish"]
+        if others:
+            return others            # a concrete non-timing violation is better evidence
+        if again:
+            hits += 1
+        if hits >= 2:
+            break
+    if hits >= 2:
+        timing[0]["reproduced"] = "%d of %d runs of this phase did not finish" % (hits, i + 1)
+        return timing
+    stats["unreproduced_timing"].append(dict(phase=ph, seed=seed, verdict=timing[0].get("verdict")))
+    return []
 
 
 def replay(pid, ctx, phases_all):
@@ -151,6 +180,7 @@ def run(ctx, pid, phases, title, extra_tb, rule):
                          ("many", ctx.seed + 19, "quick", dict(threads=16, nops=40))]
             for tag, seed, tier, kw in runs:
                 v = one_run(pid, d, tag, seed, tier, phases, skip, tr, budget, stats, **kw)
+                v = confirm_timing(pid, d, tag, seed, tier, skip, tr, budget, stats, kw, v)
                 viol += v
                 if v:
                     break
@@ -169,8 +199,9 @@ def run(ctx, pid, phases, title, extra_tb, rule):
                 allph = ["counter", "list", "setnx", "multi", "setalg", "conserve", "book", "misc", "expiry", "pairs", "bigval", "keyscan"]
                 while not viol and _t.time() - t0 < (300 if thorough else 45):
                     i += 1
-                    viol += one_run(pid, d, "focus%d" % i, ctx.seed + 31 * i, "quick", allph, skip, tr,
-                                    budget, stats, threads=8, focus=named)
+                    kwf = dict(threads=8, focus=named)
+                    vf = one_run(pid, d, "focus%d" % i, ctx.seed + 31 * i, "quick", allph, skip, tr, budget, stats, **kwf)
+                    viol += confirm_timing(pid, d, "focus%d" % i, ctx.seed + 31 * i, "quick", skip, tr, budget, stats, kwf, vf)
             # samples for the evidence
             try:
                 ops, _, _ = conclib.read_phase(Path(d) / "q" / phases[0])
@@ -223,6 +254,7 @@ def run(ctx, pid, phases, title, extra_tb, rule):
         exists_checked=stats["exists_checked"], phases=sorted(set(stats["phases"])),
         commands_exercised=sorted(stats["commands"]),
         excluded_sequentially_crashing=stats["screened"],
+        slow_phases_inconclusive=stats["slow_phases"], unreproduced_timing_verdicts=stats["unreproduced_timing"],
         correspondence=title,
     ))
     lib.write_evidence(pid, ctx.tier, ctx.seed, cov, ASSUME, ctx.wall(), ctx.violations)
